@@ -30,6 +30,19 @@ MASK24 = 0xFFFFFF
 
 # --------------------------------------------------------------------------- position-encoding payloads
 
+# exit statuses are uint32 on the wire; boundary values of every width
+STATUSES = [0, 1, 255, 256, 65535, 65536, 2 ** 31 - 1, 2 ** 31, 0xC000013A, 2 ** 32 - 1]
+
+
+def limbs(v):
+    """an exit status as TLC sees it: [high 16 bits, low 16 bits]; [-1, -1] = none, [-2, -2] = not a uint32"""
+    if v is None:
+        return [-1, -1]
+    if not 0 <= v < 2 ** 32:
+        return [-2, -2]
+    return [v >> 16, v & 0xFFFF]
+
+
 class Codebook:
     """ground truth for up to 16 streams (key = 2 * channel index + (1 if stderr))"""
     REC = 8
@@ -367,10 +380,13 @@ def e2e_scenarios(rnd, count, big):
                 "combine": rnd.choice(["off", "off", "before", "mid", "mid", "late"]),
                 "late_close": rnd.random() < 0.5,
                 "combine_after": rnd.random(),          # fraction of stdout read before the switch
-                "status": rnd.choice([0, 1, 2, 127, 255, rnd.randint(0, 2 ** 31 - 1)]),
+                "status": rnd.choice(STATUSES + [rnd.randrange(2 ** 32)]),
+                "status_raw": rnd.random() < 0.5,      # sent as a hand-made exit-status request, not send_exit_status
                 "seed": rnd.randrange(1 << 30),
             })
-        chans[0]["status"] = rnd.randint(256, 2 ** 31 - 1)      # every scenario carries a status wider than a byte
+        chans[0]["status"] = rnd.choice([2 ** 31, 0xC000013A, 2 ** 32 - 1])     # every scenario: top bit set ...
+        if nchan > 1:
+            chans[1]["status"] = rnd.choice([256, 65536, 2 ** 31 - 1])          # ... and wider than a byte
         if i == 1:                                              # every batch has a late switch with stderr buffered
             chans[0]["combine"] = "late"
             chans[0]["err"] = max(chans[0]["err"], rnd.randint(1, 5000))
@@ -388,6 +404,23 @@ def e2e_scenarios(rnd, count, big):
                      "seed": rnd.randrange(1 << 30), "wrap_ids": rnd.random() < 0.5,
                      "lazy": rnd.choice([0.0, 0.0, 0.1, 0.4])})
     return scns
+
+
+def send_status(chan, status, raw):
+    """the peer reports its exit status: through Channel.send_exit_status, or (raw) as a scripted peer would -
+    a hand-made CHANNEL_REQUEST "exit-status" carrying the uint32"""
+    if not raw:
+        chan.send_exit_status(status)
+        return
+    from paramiko.message import Message
+    from paramiko.common import cMSG_CHANNEL_REQUEST
+    m = Message()
+    m.add_byte(cMSG_CHANNEL_REQUEST)
+    m.add_int(chan.remote_chanid)
+    m.add_string("exit-status")
+    m.add_boolean(False)
+    m.add_bytes(status.to_bytes(4, "big"))
+    chan.transport._send_user_message(m)
 
 
 def run_e2e(scn, watchdog=120.0):
@@ -478,9 +511,9 @@ def run_e2e(scn, watchdog=120.0):
             d_err = book_down.make(2 * ci + 1, ch["err"])
             d_up = book_up.make(2 * ci, ch["up"])
             down = {"chan": ci, "dir": "down", "sent": {"out": ch["out"], "err": ch["err"]}, "combine": ch["combine"],
-                    "events": [], "errs": [], "comb_t0": 0, "comb_t1": 0, "status_sent": ch["status"], "status_got": -1}
+                    "events": [], "errs": [], "comb_t0": 0, "comb_t1": 0, "status_sent": limbs(ch["status"]), "status_got": limbs(None)}
             up = {"chan": ci, "dir": "up", "sent": {"out": ch["up"], "err": 0}, "combine": "off",
-                  "events": [], "errs": [], "comb_t0": 0, "comb_t1": 0, "status_sent": 0, "status_got": 0}
+                  "events": [], "errs": [], "comb_t0": 0, "comb_t1": 0, "status_sent": limbs(0), "status_got": limbs(0)}
             if ch["combine"] == "before":
                 down["comb_t0"], down["comb_t1"] = 0, 0
             switch = {"done": ch["combine"] != "mid"}
@@ -521,7 +554,7 @@ def run_e2e(scn, watchdog=120.0):
             if not j["switch"]["done"]:          # stdout shorter than the threshold: switch now
                 j["on_progress"](1 << 40)
             try:                                 # EOF in both directions; the channels are closed only after
-                j["s"].send_exit_status(j["ch"]["status"])      # every reader has seen it (a local close discards
+                send_status(j["s"], j["ch"]["status"], j["ch"].get("status_raw"))   # (a local close discards
                 j["s"].shutdown_write()                          # data that is still in flight)
                 j["c"].shutdown_write()
             except Exception as e:  # noqa
@@ -548,7 +581,7 @@ def run_e2e(scn, watchdog=120.0):
                     problems.append("reader did not reach EOF within the watchdog")
             try:
                 if j["c"].exit_status_ready() or j["c"].status_event.wait(5):
-                    j["down"]["status_got"] = j["c"].recv_exit_status()
+                    j["down"]["status_got"] = limbs(j["c"].recv_exit_status())
             except Exception as e:  # noqa
                 problems.append("exit status: %r" % (e,))
             ev_out, ev_err, ev_up = j["ev"]
@@ -610,7 +643,7 @@ def combine_scenario(prog, seed=1):
         clock = {"n": 0}
         events = []
         trace = {"chan": 0, "dir": "down", "sent": {"out": n_out, "err": n_err}, "combine": "mid", "events": events,
-                 "comb_t0": 0, "comb_t1": 0, "status_sent": 0, "status_got": 0}
+                 "comb_t0": 0, "comb_t1": 0, "status_sent": limbs(0), "status_got": limbs(0)}
 
         def stamp():
             clock["n"] += 1
@@ -732,7 +765,7 @@ def replay_behaviour(hist, chans, max_bytes, scale, seed):
         ch.settimeout(0.0)
         chs[c] = ch
         trace[c] = {"chan": c, "dir": "down", "sent": {"out": 0, "err": 0}, "combine": "off", "events": [],
-                    "comb_t0": 0, "comb_t1": 0, "status_sent": -1, "status_got": -1}
+                    "comb_t0": 0, "comb_t1": 0, "status_sent": limbs(None), "status_got": limbs(None)}
     wire = []
     clock = [0]
     diffs = []
@@ -748,8 +781,9 @@ def replay_behaviour(hist, chans, max_bytes, scale, seed):
             trace[c]["sent"][STREAMS[si]] = (pos + n) * scale
         elif kind == 2:
             _, c, v = st
+            v = v[0] * 65536 + v[1]
             wire.append((c, 2, v, 0))
-            trace[c]["status_sent"] = v
+            trace[c]["status_sent"] = limbs(v)
         elif kind in (6, 7):                      # the peer's shutdown_write() / close()
             wire.append((st[1], 3 if kind == 6 else 4, 0, 0))
         elif kind == 3:
@@ -768,7 +802,7 @@ def replay_behaviour(hist, chans, max_bytes, scale, seed):
                 m = Message()
                 m.add_string("exit-status")
                 m.add_boolean(False)
-                m.add_int(pos)
+                m.add_bytes(pos.to_bytes(4, "big"))       # the raw uint32, as a scripted peer sends it
                 m.rewind()
                 chs[c]._handle_request(m)
         elif kind == 4:
@@ -797,7 +831,7 @@ def replay_behaviour(hist, chans, max_bytes, scale, seed):
                 diffs.append({"step": e["step"], "chan": c, "ep": e["ep"], "asked": e["asked"], "spec": exp, "code": have})
     for c in chans:
         if chs[c].exit_status_ready():
-            trace[c]["status_got"] = chs[c].recv_exit_status()
+            trace[c]["status_got"] = limbs(chs[c].recv_exit_status())
     return [trace[c] for c in chans], diffs
 
 
@@ -875,6 +909,8 @@ class IdRig:
         self.decision = True
         self.peer_ids = 100
         self.role = None           # sequential use: name of the thread the current call stands for
+        self.cause = ("close", False)   # which peer message is being handled when the map changes
+        self.unanswered = set()    # ids of local opens whose CHANNEL_OPEN has gone out and is not answered yet
         t._send_message = self._send_message
         t._send_user_message = self._send_user_message
         real_next = t._next_channel
@@ -914,7 +950,8 @@ class IdRig:
         def delete(chanid):
             def do():
                 real_delete(chanid)
-                self.events.append({"op": "del", "who": who(), "id": chanid, "ctr": 0})
+                self.events.append({"op": "del", "who": who(), "id": chanid, "ctr": 0, "cause": self.cause[0],
+                                    "pending": self.cause[1]})
             atomic(do)
         t._next_channel = next_channel
         cmap.put, cmap.delete = put, delete
@@ -944,6 +981,7 @@ class IdRig:
             mm = Message(raw[1:])
             mm.get_text()
             cid = mm.get_int()
+            self.unanswered.add(cid)
             if self.reply_mode == "queue":
                 self.inbox.append(cid)
             else:
@@ -954,6 +992,8 @@ class IdRig:
         from paramiko.message import Message
         m = Message()
         m.add_int(chanid)
+        pending = chanid in self.unanswered        # stray = the id names no local open that awaits an answer
+        self.unanswered.discard(chanid)
         if accept:
             self.peer_ids += 1
             m.add_int(self.peer_ids)
@@ -966,7 +1006,19 @@ class IdRig:
             m.add_string("no")
             m.add_string("en")
             m.rewind()
-            self.t._parse_channel_open_failure(m)
+            saved, self.cause = self.cause, ("failure", pending)
+            try:
+                self.t._parse_channel_open_failure(m)
+            finally:
+                self.cause = saved
+
+    def peer_close(self, chanid):
+        """CHANNEL_CLOSE for chanid as the transport thread's run loop dispatches it: to the channel registered
+        under that id, dropped if there is none (duplicate CLOSE)"""
+        ch = self.t._channels.get(chanid)
+        if ch is not None:
+            ch._handle_close(None)
+        return ch is not None
 
     # ---- operations
     def local_open(self):
@@ -1044,6 +1096,15 @@ def id_replay(hist, n_model):
             elif tag == 5:
                 if not rig.close_id(real(mid)):
                     diffs.append({"step": pos, "op": "close", "spec": real(mid), "code": None})
+            elif tag in (6, 7):                  # OPEN_FAILURE / OPEN_CONFIRMATION naming an id out of turn
+                rig.role = "T"
+                try:
+                    rig.answer(real(mid), tag == 7)
+                finally:
+                    rig.role = "A"
+            elif tag == 8:                       # CLOSE for an id that has no channel
+                if rig.peer_close(real(mid)):
+                    diffs.append({"step": pos, "op": "duplicate_close", "spec": None, "code": real(mid)})
             elif tag == 2:
                 end = {}
 
@@ -1277,7 +1338,7 @@ def _instrument(t, events):
 
     def delete(chanid):
         real_delete(chanid)
-        events.append({"op": "del", "who": who(), "id": chanid, "ctr": 0})
+        events.append({"op": "del", "who": who(), "id": chanid, "ctr": 0, "cause": "close", "pending": False})
     t._next_channel = next_channel
     cmap.put, cmap.delete = put, delete
     t._verif_keep = keep
